@@ -73,6 +73,14 @@ type MetricRead struct {
 	Keys []Expr
 }
 
+// IncExpr is m[k]++ / m[k]-- used for its value (the new value) inside a
+// larger expression.
+type IncExpr struct {
+	M    *Metric
+	Keys []Expr
+	Op   string
+}
+
 // Bin covers arithmetic (+ - * / % **), bitwise (& | ^), shifts (<< >>),
 // comparisons (< <= > >= == !=), string concatenation (+), logical (&& ||).
 type Bin struct {
@@ -108,6 +116,7 @@ func (*FloatLit) exprNode()   {}
 func (*StrLit) exprNode()     {}
 func (*Capref) exprNode()     {}
 func (*MetricRead) exprNode() {}
+func (*IncExpr) exprNode()    {}
 func (*Bin) exprNode()        {}
 func (*BitNot) exprNode()     {}
 func (*Call) exprNode()       {}
@@ -263,6 +272,8 @@ func (r *Renderer) exprSide(e Expr, ctx int, right bool) string {
 		return "$" + strconv.Itoa(n.Idx)
 	case *MetricRead:
 		return r.keys(n.M, n.Keys)
+	case *IncExpr:
+		return r.keys(n.M, n.Keys) + n.Op
 	case *BitNot:
 		return "~" + r.exprSide(n.E, 8, false)
 	case *Call:
